@@ -24,6 +24,96 @@ FILTERS = {
 }
 
 
+def count_halves(sa):
+    """slow_aho(a, m, value) = number of distinct pattern ids among the filtered overlapping hits:
+         if m.len() < 64 { map |= 1 << hit.pattern().as_u64() for every counted hit; popcount of bits 0..m.len() }
+         else            { set.insert(hit.pattern()) for every counted hit; set.len() }
+    (which hits are counted is T-OFFSET's business; here: what is recorded and how it is summed)  -> (ok, detail)"""
+    params = [p_["pat"] for p_ in sa.thir["params"] if p_.get("pat")]
+    body = q.inline_pure_lets(sa.body, params)
+    mid = strip_ref(params[1]).get("id")
+    tops = [n for n in walk(body) if n.get("k") == "If" and n.get("else") is not None and peel(n["cond"]).get("k") == "Binary" and peel(n["cond"])["op"] == "Lt" and lit(peel(n["cond"])["rhs"]) == ("i", 64)]
+    if len(tops) != 1:
+        return False, "no single `if len < 64 {..} else {..}`"
+    top = tops[0]
+    l = peel(peel(top["cond"])["lhs"])
+    if not (call_is(l, "::len") and q.base_var(l["args"][0]) == mid):
+        return False, "the 64 test is not on the kind vector's length"
+
+    def scan(part):
+        loops = [n for n in walk(part) if n.get("k") == "For" and call_is(peel(n["iter"]), "find_overlapping_iter")]
+        return loops[0] if len(loops) == 1 else None
+
+    def is_pattern_of(e, loop):
+        e = peel(e)
+        return call_is(e, "Match::pattern") and q.var_id(e["args"][0]) == strip_ref(loop["pat"]).get("id")
+    # ---- bitmap half
+    lt = scan(top["then"])
+    if lt is None:
+        return False, "bitmap half: no scan loop"
+    ors = [n for n in walk(lt["body"]) if n.get("k") == "AssignOp" and n["op"] == "BitOrAssign"]
+    if not ors:
+        return False, "bitmap half: no `map |= ..`"
+    map_id = q.var_id(ors[0]["lhs"])
+    for o in ors:
+        r = peel(o["rhs"])
+        okbit = q.var_id(o["lhs"]) == map_id and r.get("k") == "Binary" and r["op"] == "Shl" and lit(r["lhs"]) == ("i", 1) and call_is(peel(r["rhs"]), "PatternID::as_u64") and is_pattern_of(peel(r["rhs"])["args"][0], lt)
+        if not okbit:
+            return False, "bitmap half: recorded bit is not 1 << hit.pattern().as_u64(): " + str(show(o))[:60]
+    others = [n for n in walk(top["then"]) if n.get("k") in ("Assign", "AssignOp") and q.var_id(n["lhs"]) == map_id and not any(n is o for o in ors)]
+    if others:
+        return False, "bitmap half: the map is written elsewhere"
+    pops = [n for n in walk(top["then"]) if n.get("k") == "For" and n is not lt]
+    if len(pops) != 1:
+        return False, "bitmap half: no single popcount loop"
+    pop = pops[0]
+    end = q._range_upto(pop["iter"], body)
+    if not (end is not None and call_is(end, "::len") and q.base_var(end["args"][0]) == mid):
+        return False, "bitmap half: popcount does not run over 0..len"
+    iv = strip_ref(pop["pat"]).get("id")
+    # bit test ((map >> i) & 1), either added to the counter or compared with 1 to guard `counter += 1`
+    bits = [n for n in walk(pop["body"]) if n.get("k") == "Binary" and n["op"] == "BitAnd" and lit(n["rhs"]) == ("i", 1) and peel(n["lhs"]).get("k") == "Binary" and peel(n["lhs"])["op"] == "Shr"
+            and q.var_id(peel(n["lhs"])["lhs"]) == map_id and q.base_var(peel(n["lhs"])["rhs"], pop["body"]) == iv]
+    adds = [n for n in walk(pop["body"]) if n.get("k") == "AssignOp" and n["op"] == "AddAssign"]
+    if len(bits) != 1 or len(adds) != 1:
+        return False, "bitmap half: popcount body is not one bit test and one addition"
+    add = adds[0]
+    cnt_id = q.var_id(add["lhs"])
+    if peel(add["rhs"]) is bits[0] or (peel(add["rhs"]).get("k") == "Cast" and peel(peel(add["rhs"])["arg"]) is bits[0]):
+        pass  # hits += (map >> i) & 1
+    else:
+        guard = [n for n in walk(pop["body"]) if n.get("k") == "If" and not n.get("else") and q.contains(n["then"], add)]
+        c = peel(guard[0]["cond"]) if len(guard) == 1 else {}
+        okg = lit(add["rhs"]) == ("i", 1) and c.get("k") == "Binary" and ((c["op"] == "Eq" and lit(c["rhs"]) == ("i", 1)) or (c["op"] == "Ne" and lit(c["rhs"]) == ("i", 0))) and peel(c["lhs"]) is bits[0]
+        if not okg:
+            return False, "bitmap half: the counter is not advanced exactly for the set bits"
+    tl = q.result_leaves(top["then"])
+    tv = [peel(x["arg"]) if peel(x).get("k") == "Cast" else peel(x) for x, _ in tl]
+    tv = [unblock(x) for x in tv]
+    def yields(x, vid):
+        while x.get("k") == "Block" and x.get("expr") is not None:
+            x = unblock(x["expr"])
+        return q.var_id(x) == vid
+    if not (len(tv) == 1 and yields(tv[0], cnt_id)):
+        return False, "bitmap half: the result is not the popcount"
+    # ---- set half
+    le = scan(top["else"])
+    if le is None:
+        return False, "set half: no scan loop"
+    ins = [n for n in walk(le["body"]) if call_is(n, "::insert")]
+    if not ins:
+        return False, "set half: no insert"
+    set_id = q.base_var(ins[0]["args"][0])
+    for i_ in ins:
+        if q.base_var(i_["args"][0]) != set_id or not is_pattern_of(i_["args"][1], le) or "HashSet<" not in str(peel(i_["args"][0]).get("ty", "")):
+            return False, "set half: what is inserted is not hit.pattern() into one HashSet"
+    el = q.result_leaves(top["else"])
+    ev = [peel(x["arg"]) if peel(x).get("k") == "Cast" else peel(x) for x, _ in el]
+    if not (len(ev) == 1 and call_is(ev[0], "::len") and q.base_var(ev[0]["args"][0]) == set_id):
+        return False, "set half: the result is not the set's size"
+    return True, "bitmap and set halves recognised"
+
+
 def aho_pairs(f, body):
     """(automaton variable id, context variable id) pairs of a function: the two leading fields bound by one
     `Search::AhoCorasick(a, m, _)` pattern, or slow_aho's own first two parameters (its callers pass such a pair, see T-SEARCH)."""
@@ -94,26 +184,41 @@ def run(rep):
     if sf is None:
         rep.lost("T-SEARCH", "T-SEARCH/anchor", "solver::search")
     else:
-        m = None
-        for s in sf.body.get("stmts", []):
-            if s["k"] == "Expr" and unblock(s["e"]).get("k") == "Match":
-                m = unblock(s["e"])
-        if m is None and sf.body.get("expr") and unblock(sf.body["expr"]).get("k") == "Match":
-            m = unblock(sf.body["expr"])
+        # the match on the search kind, as a statement (`Kind(i) => if OP { return True }` ... `False`) or as a value
+        # (`let found = match kind { Kind(i) => OP, .. }; if found { True } else { False }`)
+        kparam = strip_ref(sf.thir["params"][0]["pat"]).get("id")
+        ms = [n for n in walk(sf.body) if n.get("k") == "Match" and q.base_var(n["scrut"]) == kparam and any(variant_of(p_) and variant_of(p_)[0] == "Search" for a_ in n["arms"] for p_ in or_pats(a_["pat"]))]
+        m = ms[0] if len(ms) == 1 else None
         spec = {
-            "Any": lambda b: b == "return SolverResult::True",
-            "Exact": lambda b: b in ("if PartialEq::eq(i, value) {return SolverResult::True}", "if PartialEq::eq(value, i) {return SolverResult::True}"),
-            "Contains": lambda b: b == "if <impl str>::contains(value, i) {return SolverResult::True}",
-            "EndsWith": lambda b: b == "if <impl str>::ends_with(value, i) {return SolverResult::True}",
-            "StartsWith": lambda b: b == "if <impl str>::starts_with(value, i) {return SolverResult::True}",
-            "Regex": lambda b: b == "if Regex::is_match(i, value) {return SolverResult::True}",
-            "RegexSet": lambda b: b == "if RegexSet::is_match(i, value) {return SolverResult::True}",
+            "Any": ("true",),
+            "Exact": ("PartialEq::eq(i, value)", "PartialEq::eq(value, i)", "(i Eq value)", "(value Eq i)"),
+            "Contains": ("<impl str>::contains(value, i)",),
+            "EndsWith": ("<impl str>::ends_with(value, i)",),
+            "StartsWith": ("<impl str>::starts_with(value, i)",),
+            "Regex": ("Regex::is_match(i, value)",),
+            "RegexSet": ("RegexSet::is_match(i, value)",),
         }
         seen = set()
         if m is None:
             rep.lost("T-SEARCH", "T-SEARCH/match", "match on the search kind")
         else:
             vparam = sf.thir["params"][1]["pat"]["name"]
+            value_form = str(m.get("ty")) == "bool"
+
+            def truth(body):
+                """the condition under which this arm answers true -> rendering, or None"""
+                b_ = unblock(body)
+                if value_form:
+                    return b_
+                if q.returns_sr(b_, "True"):
+                    return {"k": "Lit", "ty": "bool", "sp": b_.get("sp"), "v": "bool:true"}
+                while b_.get("k") == "Block" and not b_["stmts"] and b_.get("expr") is not None:
+                    b_ = unblock(b_["expr"])
+                if b_.get("k") == "Block" and len(b_["stmts"]) == 1 and b_["stmts"][0]["k"] == "Expr" and b_.get("expr") is None:
+                    b_ = unblock(b_["stmts"][0]["e"])
+                if b_.get("k") == "If" and not b_.get("else") and q.returns_sr(b_["then"], "True"):
+                    return b_["cond"]
+                return None
             for a in m["arms"]:
                 v = variant_of(a["pat"])
                 if not v or v[0] != "Search":
@@ -137,17 +242,28 @@ def run(rep):
                     items = flat(ab)
                     if len(items) == 2 and isinstance(items[1], dict) and (q.returns_sr(items[1], "False") or q.is_sr(items[1], "False")):
                         items = items[:1]  # `no hit => False` spelled in the arm itself
+                    if len(items) == 3 and items[0].get("k") == "Let" and lit(items[0].get("init")) == ("bool", False) and q.var_id(items[2]) == strip_ref(items[0]["pat"]).get("id"):
+                        items = items[1:2]  # the flag loop an `.any(..)` stands for: `let found = false; for .. {..}; found`
                     okarm = len(items) == 1 and items[0].get("k") == "For" and call_is(peel(items[0]["iter"]), "find_overlapping_iter")
                     rep.check(okarm, "T-SEARCH", "T-SEARCH/AhoCorasick", a["sp"], "the automaton arm is only the scan over its overlapping hits (no shortcut that answers without scanning)", "; ".join(str(show(x))[:50] if isinstance(x, dict) and x.get("k") != "Let" else "let" for x in items))
                     continue
                 p0 = strip_ref(subpat(a["pat"], 0)) if v[1] != "Any" else None
                 ren = {p0["name"]: "i"} if p0 and p0.get("k") == "Bind" else {}
                 ren[vparam] = "value"
-                b = show(a["body"], ren=ren)
-                rep.check(spec[v[1]](b), "T-SEARCH", "T-SEARCH/" + v[1], a["sp"], "Search::%s uses the documented operation on (value, needle)" % v[1], b)
+                t_ = truth(a["body"])
+                b = show(t_, ren=ren) if t_ is not None else "?"
+                rep.check(t_ is not None and str(b) in spec[v[1]], "T-SEARCH", "T-SEARCH/" + v[1], a["sp"], "Search::%s answers true exactly when the documented operation on (value, needle) holds" % v[1], str(b) if t_ is not None else show(a["body"])[:80])
             rep.check(seen == set(spec) | {"AhoCorasick"}, "T-SEARCH", "T-SEARCH/complete", m["sp"], "all eight Search kinds handled", str(sorted(seen)))
-            tail = sf.body.get("expr")
-            rep.check(tail is not None and q.is_sr(tail, "False") or (tail is not None and show(tail) == "SolverResult::False"), "T-SEARCH", "T-SEARCH/default-false", sf.sp, "no hit => False", show(tail) if tail else "-")
+            if value_form:
+                # the match's value decides: if V { True } else { False }
+                okd = False
+                for n in walk(sf.body):
+                    if n.get("k") == "If" and n.get("else") is not None and q.resolve(sf.body, n["cond"]) is m:
+                        okd = (q.is_sr(unblock(n["then"]), "True") or q.returns_sr(n["then"], "True")) and (q.is_sr(unblock(n["else"]), "False") or q.returns_sr(n["else"], "False"))
+                rep.check(okd, "T-SEARCH", "T-SEARCH/default-false", sf.sp, "the kind's condition decides: true => True, otherwise False", "")
+            else:
+                tail = sf.body.get("expr")
+                rep.check(tail is not None and q.is_sr(tail, "False") or (tail is not None and show(tail) == "SolverResult::False"), "T-SEARCH", "T-SEARCH/default-false", sf.sp, "no hit => False", show(tail) if tail else "-")
 
     # ---------------------------------------------------------------- T-OFFSET (three copies)
     copies = []
@@ -184,13 +300,18 @@ def run(rep):
             and it.get("k") == "Call" and (q.base_var(it["args"][0]), q.base_var(scn["args"][0])) in pairs
         rep.check(okidx, "T-OFFSET", "T-OFFSET/index/" + tag, mm["sp"], "the hit's kind is context[hit.pattern()]", sc)
         actions = set()
+        value_form = str(mm.get("ty")) == "bool"  # `if match kind { Contains(_) => true, EndsWith(_) => <cond>, .. } { <record the hit> }`
         for a in mm["arms"]:
             v = variant_of(a["pat"])
             kind = v[1] if v else "?"
             b = unblock(a["body"])
             cond = None
             act = b
-            if b.get("k") == "If":
+            if value_form:
+                cond = None if lit(b) == ("bool", True) else show(b, ren=ren)
+                gov = [x for x in walk(loop["body"]) if x.get("k") == "If" and unblock(x["cond"]) is mm]
+                act = unblock(gov[0]["then"]) if len(gov) == 1 and not gov[0].get("else") else {"k": "Lit", "v": "s:?"}
+            elif b.get("k") == "If":
                 cond = show(b["cond"], ren=ren)
                 act = unblock(b["then"])
                 if b.get("else"):
@@ -217,21 +338,8 @@ def run(rep):
     # slow_aho: bit recorded is the pattern's own index; hits counted over 0..len
     sa = F.fn("solver::slow_aho")
     if sa is not None:
-        import alpha
-        ps = [pat_str(p_["pat"]) for p_ in sa.thir["params"] if p_.get("pat")]
-        s = alpha.S("fn(" + ", ".join(ps) + ") {" + str(show(q.inline_pure_lets(sa.body, [p_["pat"] for p_ in sa.thir["params"] if p_.get("pat")]))) + "}")
-        P = "Match::pattern(i)"
-        bit = "map BitOrAssign (1 Shl PatternID::as_u64(%s))" % P
-        ins = "<T, S, A>::insert(hits, %s)" % P
-
-        def half(act):
-            return ("for $i in AhoCorasick::find_overlapping_iter(a, value) {match Index::index(m, %s) {MatchType::Contains(_) => %s, "
-                    "MatchType::EndsWith(_) => if (Match::end(i) Eq <impl str>::len(value)) {%s}, "
-                    "MatchType::Exact(_) => if ((Match::start(i) Eq 0) && (Match::end(i) Eq <impl str>::len(value))) {%s}, "
-                    "MatchType::StartsWith(_) => if (Match::start(i) Eq 0) {%s}}}") % (P, act, act, act, act)
-        want = ("fn($a, $m, $value) {if (<impl [T]>::len(m) Lt 64) {{let $map = 0; " + half(bit) + "; let $hits = 0; for $i in Range::Range{start: 0, end: <impl [T]>::len(m)} {hits AddAssign ((map Shr i) BitAnd 1)}; hits}} else {"
-                "{let $hits = <T>::with_capacity(<impl [T]>::len(m)); " + half(ins) + "; (<T, S, A>::len(hits) as u64)}}}")
-        rep.check(s == want, "T-OFFSET", "T-OFFSET/count-halves", sa.sp, "slow_aho: bitmap half (bit per pattern id, popcount over 0..len, only when len < 64) and set half (distinct pattern ids), both over the filtered overlapping hits", None if s == want else "body differs from the reviewed form (modulo renaming)")
+        okh, deth = count_halves(sa)
+        rep.check(okh, "T-OFFSET", "T-OFFSET/count-halves", sa.sp, "slow_aho: bitmap half (bit per pattern id, popcount over 0..len, only when len < 64) and set half (distinct pattern ids), both over the filtered overlapping hits", deth)
 
     # ---------------------------------------------------------------- builders: AHO-OVERLAP (kind), FLAG
     nb = 0
